@@ -123,6 +123,9 @@ def run_case(args):
     tp.unlink(missing_ok=True)
     out, err, rc = runner.run_opensmt(binary, script, tp, timeout=30)
     res = {"idx": idx, "logic": logic, "script": script, "problems": [], "proofs": 0, "steps": 0, "leaves": 0}
+    if rc == "timeout":
+        tp.unlink(missing_ok=True)
+        return res                    # inconclusive
     if rc not in (0, 1) or not tp.exists():
         res["problems"].append({"what": f"opensmt terminated abnormally (status {rc})", "stderr": err[-300:]}); return res
     try:
